@@ -88,7 +88,14 @@ func c01Run(w *W, c Case) {
 		if l.GetHour() != st.H || l.GetMinute() != st.Mi || l.GetSecond() != st.S {
 			w.Violatef("roundtrip-civil", key+"/time", "lunar of %s carries time %02d:%02d:%02d", key, l.GetHour(), l.GetMinute(), l.GetSecond())
 		}
-		// round trip lunar -> civil -> lunar through the constructor
+		// round trip lunar -> civil -> lunar through the constructor. Now and then (always in months 11, 12 and leap
+		// months) right after an unrelated conversion that leaves the table of the civil year with the lunar year's number
+		// cached, having matched one of its leading months, which belong to the lunar year before
+		if k.m >= 11 || k.m < 0 || j%5 == 0 {
+			if k.y >= minYear && k.y <= maxYear {
+				calendar.NewSolarFromYmd(k.y, 1, 3+j%20).GetLunar()
+			}
+		}
 		var l2 *calendar.Lunar
 		if pv := Call(func() { l2 = calendar.NewLunar(k.y, k.m, k.d, st.H, st.Mi, st.S) }); pv != nil {
 			w.Violatef("roundtrip-lunar", key, "NewLunar(%d,%d,%d,%02d:%02d:%02d) (lunar date of %s) panicked: %v", k.y, k.m, k.d, st.H, st.Mi, st.S, key, pv)
